@@ -372,7 +372,7 @@ func c16Y1(l *core.Ledger, g *gen.Generator) {
 			return true
 		})
 	}
-	l.Floor("C16-Y1", n, 5, "map ranges on the plugin path")
+	l.Floor("C16-Y1", n, 1, "map ranges on the plugin path")
 }
 
 // mapRangeIdiom classifies the body of a map range.
